@@ -49,7 +49,7 @@ func runC02(c *Ctx) {
 		maxN = 7
 	}
 	c.Exhaustive = true
-	c.Rule = fmt.Sprintf("every vector in ({matched,unmatched} x {allow,deny,other})^n for 1 <= n <= %d and each of the 5 effect expressions, driven through the real Enforce/EnforceEx/BatchEnforce on a model whose matcher is r.sub == p.sub (exhaustive); every direct MergeEffects call on arrays of length <= 3 at every index; non-trivial = at least one matched rule; distinct = (effect, vector)", maxN)
+	c.Rule = fmt.Sprintf("every vector in ({matched,unmatched} x {allow,deny,other})^n for 1 <= n <= %d and each of the 5 effect expressions, driven through the real Enforce/EnforceEx/BatchEnforce on a model whose matcher is r.sub == p.sub (exhaustive); n = 0 (empty policy, also after the last rule was removed) for each effect; every ordered pair of distinct effects as e / e2 with the request made through EnforceContext (e2 must decide), vectors of length <= 2; every direct MergeEffects call on arrays of length <= 3 at every index; non-trivial = at least one matched rule; distinct = (effect, vector)", maxN)
 
 	for _, k := range effectKinds {
 		e, err := casbin.NewEnforcer(c02Model(k.expr))
@@ -138,6 +138,77 @@ func runC02(c *Ctx) {
 			}
 		}
 		rec(maxN)
+	}
+
+	// n = 0: the branch enforce() takes on an empty policy, for a request that does not / does satisfy the
+	// matcher against the all-empty rule
+	for _, k := range effectKinds {
+		e, err := casbin.NewEnforcer(c02Model(k.expr))
+		if err != nil {
+			panic(err)
+		}
+		for bi, sub := range []string{"alice", ""} {
+			ok, err := e.Enforce(sub, "x", "read")
+			obs := fmt.Sprint(ok)
+			if err != nil {
+				obs = "err"
+			}
+			c.W.Op(fmt.Sprintf("elsevec %s %d", k.name, bi), obs)
+			c.Evals++
+			c.Count("empty_policy_calls", 1)
+		}
+		// … and after the last rule has been removed again
+		_, _ = e.AddPolicy("alice", "o0", "read", "deny")
+		_, _ = e.RemovePolicy("alice", "o0", "read", "deny")
+		ok, err := e.Enforce("alice", "x", "read")
+		obs := fmt.Sprint(ok)
+		if err != nil {
+			obs = "err"
+		}
+		c.W.Op(fmt.Sprintf("elsevec %s 0", k.name), obs)
+	}
+	// a second effect definition selected through EnforceContext: e2 decides, not e
+	for _, ka := range effectKinds {
+		for _, kb := range effectKinds {
+			if ka.name == kb.name {
+				continue
+			}
+			m := c02Model(ka.expr)
+			m.AddDef("e", "e2", kb.expr)
+			e, err := casbin.NewEnforcer(m)
+			if err != nil {
+				panic(err)
+			}
+			ctx := casbin.EnforceContext{RType: "r", PType: "p", EType: "e2", MType: "m"}
+			for code := 0; code < 6+36; code++ {
+				var vec []int
+				if code < 6 {
+					vec = []int{code}
+				} else {
+					vec = []int{(code - 6) / 6, (code - 6) % 6}
+				}
+				e.ClearPolicy()
+				rules := make([][]string, len(vec))
+				names := make([]string, len(vec))
+				for i, cell := range vec {
+					rules[i] = cellRule(cell, i)
+					names[i] = cellNames[cell]
+				}
+				_, _ = e.AddPolicies(rules)
+				ok, explain, err := e.EnforceEx(ctx, "alice", "x", "read")
+				idx := -1
+				if len(explain) > 0 {
+					fmt.Sscanf(explain[1], "o%d", &idx)
+				}
+				obs := fmt.Sprintf("%v %d", ok, idx)
+				if err != nil {
+					obs = "err"
+				}
+				c.W.Op(fmt.Sprintf("enfvec %s %s", kb.name, strings.Join(names, "")), obs)
+				c.Evals++
+				c.Count("second_effect_definition_calls", 1)
+			}
+		}
 	}
 
 	// direct MergeEffects calls on arbitrary (also partially filled) arrays
